@@ -48,6 +48,8 @@ structure Handle where
   tx : Nat
   path : List Bytes
   alive : Bool
+  /-- a handle to a *descendant* of a deleted bucket: using it is outside the specification -/
+  orphan : Bool := false
 
 structure TxS where
   id : Nat
@@ -56,6 +58,7 @@ structure TxS where
 
 structure St where
   committed : DBS := Spec.empty
+  pagesize : Nat := 1024
   txs : List TxS := []
   handles : List Handle := []
 
@@ -92,13 +95,15 @@ structure Step where
   allowed : List String
 
 def deadOr (h : Handle) (k : Unit → List String) : List String :=
-  if h.alive then k () else ["panic:deleted"]
+  if h.orphan then [] else if h.alive then k () else ["panic:deleted"]
 
 def stepOp (s : St) (f : List String) : Step :=
   let num (i : Nat) : Nat := (f.getD i "0").toNat!
   let str (i : Nat) : String := f.getD i ""
   match f.head? with
-  | some "cfg" => ⟨s, ["ok"]⟩
+  | some "cfg" =>
+    let ps := (f.filterMap (fun kv => if kv.startsWith "pagesize=" then some (kv.drop 9).toString.toNat! else none)).headD s.pagesize
+    ⟨{ s with pagesize := ps }, ["ok"]⟩
   | some "open" => ⟨{ s with txs := [], handles := [] }, ["ok"]⟩
   | some "reopen" => ⟨{ s with txs := [], handles := [] }, ["ok"]⟩
   | some "close" => ⟨{ s with txs := [], handles := [] }, ["ok"]⟩
@@ -134,6 +139,7 @@ def stepOp (s : St) (f : List String) : Step :=
         let name := unhex (str 4)
         let create := op != "getb"
         if create && !tx.writable then ⟨s, ["err:ReadOnlyTx"]⟩
+        else if hp.orphan then ⟨s, []⟩
         else if !hp.alive then ⟨s, ["panic:deleted"]⟩
         else
           let (r, db') := Spec.bucketGetter tx.db hp.path name create (op == "mkb")
@@ -149,6 +155,7 @@ def stepOp (s : St) (f : List String) : Step :=
       | some hp =>
         let name := unhex (str 3)
         if !tx.writable then ⟨s, ["err:ReadOnlyTx"]⟩
+        else if hp.orphan then ⟨s, []⟩
         else if !hp.alive then ⟨s, ["panic:deleted"]⟩
         else
           let (r, db') := Spec.deleteBucket tx.db hp.path name
@@ -158,7 +165,9 @@ def stepOp (s : St) (f : List String) : Step :=
             let pre := hp.path ++ [name]
             let s1 := s.setTx { tx with db := db' }
             ⟨{ s1 with handles := s1.handles.map (fun x =>
-                if x.tx == tx.id && pre.isPrefixOf x.path then { x with alive := false } else x) }, ["ok"]⟩
+                if x.tx == tx.id && x.alive && !x.orphan && pre.isPrefixOf x.path then
+                  (if x.path == pre then { x with alive := false } else { x with orphan := true })
+                else x) }, ["ok"]⟩
     else
       match s.handle? tx.id (num 2) with
       | none => ⟨s, ["?unknown-handle"]⟩
@@ -167,6 +176,7 @@ def stepOp (s : St) (f : List String) : Step :=
         match op with
         | "put" =>
           if !tx.writable then ⟨s, ["err:ReadOnlyTx"]⟩
+          else if h.orphan then ⟨s, []⟩
           else if !h.alive then ⟨s, ["panic:deleted"]⟩
           else
             let (r, db') := Spec.put tx.db h.path (unhex (str 3)) (unhex (str 4))
@@ -176,6 +186,7 @@ def stepOp (s : St) (f : List String) : Step :=
             | .ok (some (k, v)) => ⟨s.setTx { tx with db := db' }, [s!"ok:K:{hex k}:{hex v}"]⟩
         | "del" =>
           if !tx.writable then ⟨s, ["err:ReadOnlyTx"]⟩
+          else if h.orphan then ⟨s, []⟩
           else if !h.alive then ⟨s, ["panic:deleted"]⟩
           else
             let (r, db') := Spec.delete tx.db h.path (unhex (str 3))
